@@ -609,3 +609,22 @@ Example ops_history_example :
   = [AQuoted (Ok [37; 52; 49]%N); AQuoted (Ok [37; 50; 53; 52; 49]%N);
      AFound (Ok (FoundAt [0])); AFound (Ok (FoundAt [0]))].
 Proof. vm_compute. reflexivity. Qed.
+
+(* ---- one long-lived traverser object serving a history of requests.
+   The object's state is its [root] (set by __init__); the regenerated facts say that
+   __call__ never writes to self and that the class has no other attribute
+   (c02facts.check_environment), so a call returns the object unchanged: any history
+   on ONE traverser answers like fresh traversers. *)
+Record tobj := mkObj { o_root : rnode }.
+Definition obj_call (o : tobj) (q : request) : result tdict * tobj := (traverser_call (o_root o) q, o).
+Fixpoint obj_history (o : tobj) (qs : list request) : list (result tdict) * tobj :=
+  match qs with
+  | [] => ([], o)
+  | q :: r => let '(a, o1) := obj_call o q in let '(rest, o2) := obj_history o1 r in (a :: rest, o2)
+  end.
+
+Theorem obj_history_free o qs :
+  obj_history o qs = (map (fun q => fst (obj_call (mkObj (o_root o)) q)) qs, o).
+Proof.
+  induction qs as [|q r IH]; [reflexivity|]. simpl. rewrite IH. reflexivity.
+Qed.
